@@ -110,6 +110,14 @@ int include_parse(AsmContext *asm_context)
 printf("including file %s.\n", token);
 #endif
 
+  // A file that includes itself (directly or through other files) would
+  // otherwise recurse until the stack or the file handles run out.
+  if (asm_context->include_depth >= 64)
+  {
+    print_error(asm_context, "Include files nested too deep");
+    return -1;
+  }
+
   write_list_file = asm_context->write_list_file;
   asm_context->write_list_file = 0;
 
@@ -163,7 +171,9 @@ printf("including file %s.\n", token);
     asm_context->tokens.filename = token;
     asm_context->tokens.line = 1;
 
+    asm_context->include_depth++;
     ret = asm_context->assemble();
+    asm_context->include_depth--;
 
     asm_context->tokens.line = oldline;
   }
